@@ -5,7 +5,7 @@ CONSTANTS
   MaxLen = 4
   Limit = 3
   Chunked = TRUE
-  NoRangeLen = 3
+  NoRangeLen = 4
   CodeDen <- Den1
   Dims = 1
 VIEW View
